@@ -16,6 +16,7 @@ func init() {
 		ID: "C20",
 		Rules: []Rule{
 			{"EVENT-ONSUCCESS", ruleEventOnSuccess},
+			{"FAIL-BEFORE-WRITE", ruleFailBeforeWrite},
 			{"COMMIT-CALLBACKS", ruleCommitCallbacks},
 			{"EVENT-COLLECTION-ID", ruleEventCollectionID},
 			{"EVENT-PAYLOAD", ruleEventPayload},
@@ -27,7 +28,7 @@ func init() {
 			{"PEER-CONSUMES", rulePeerConsumes},
 		},
 		Meta: eng.PropMeta{
-			Explanation: "Decides the structural side of 'exactly one notification per committed document commit, only for committed changes, in order': (EVENT-ONSUCCESS) every publication of an update event in the module sits inside a callback registered with the transaction's OnSuccess/OnSuccessAsync (one tabled exception re-announcing already committed heads); (EVENT-PAYLOAD) in save and applyDelete every document-level and collection-level AddDelta is followed, on every non-error path to the function's exit, by exactly one OnSuccess registration whose event carries the Cid and the block bytes returned by that same AddDelta; (CONFINEMENT) all bus commands pass the single commandChannel whose only receiver is the one handleChannel goroutine, which delivers in loop order; (BUS-BLOCKING) delivery to a subscriber is an unconditional blocking send — never a select with a default/timeout arm that could drop a notification; (SUB-CID) a subscription evaluates at the Cid and DocID of the received update event; (PEER-CONSUMES) the peer subscribes to update events and hands each to handleLog. (COMMIT-CALLBACKS) as in C05: success callbacks, which carry every update event, run only when the store commit returned nil. (EVENT-COLLECTION-ID) as in C19. (BUS-SUBSCRIBER-LOCAL) subscribing and unsubscribing touch only the subscriber concerned: handleChannel deletes subscriber ids from an event's set, never the set itself, and creates a set only when the event name has none. (SUB-OWN-CHANGES) a GraphQL subscription sends a result only for events of its own collection (the event's CollectionID is compared with the subscribed collection's id on every path to the send) and judges 'nothing matched' on the selection's items, not on the result map, which is never empty.",
+			Explanation: "Decides the structural side of 'exactly one notification per committed document commit, only for committed changes, in order': (EVENT-ONSUCCESS) every publication of an update event in the module sits inside a callback registered with the transaction's OnSuccess/OnSuccessAsync (one tabled exception re-announcing already committed heads); (EVENT-PAYLOAD) in save and applyDelete every document-level and collection-level AddDelta is followed, on every non-error path to the function's exit, by exactly one OnSuccess registration whose event carries the Cid and the block bytes returned by that same AddDelta; (CONFINEMENT) all bus commands pass the single commandChannel whose only receiver is the one handleChannel goroutine, which delivers in loop order; (BUS-BLOCKING) delivery to a subscriber is an unconditional blocking send — never a select with a default/timeout arm that could drop a notification; (SUB-CID) a subscription evaluates at the Cid and DocID of the received update event; (PEER-CONSUMES) the peer subscribes to update events and hands each to handleLog. (COMMIT-CALLBACKS) as in C05: success callbacks, which carry every update event, run only when the store commit returned nil. (EVENT-COLLECTION-ID) as in C19. (BUS-SUBSCRIBER-LOCAL) subscribing and unsubscribing touch only the subscriber concerned: handleChannel deletes subscriber ids from an event's set, never the set itself, and creates a set only when the event name has none. (SUB-OWN-CHANGES) a GraphQL subscription sends a result only for events of its own collection (the event's CollectionID is compared with the subscribed collection's id on every path to the send) and judges 'nothing matched' on the selection's items, not on the result map, which is never empty. (FAIL-BEFORE-WRITE) in collection.create the unique-index violation — a failure that depends on the user's input — is detected before the first write; on the current tree it is detected after c.save, so inside an explicit transaction a create that reported an error leaves its document and its notification behind: the recorded known finding of this rule.",
 			NotDecided:  "delivery under back-pressure and shutdown, exactly-one results of GraphQL subscriptions against their filter, ordering across concurrent callers (defined by commit completion order at run time)",
 		},
 	})
